@@ -99,7 +99,7 @@ static int32_t repair_torn_link(struct jls_core_s * core, int64_t pos) {
     return jls_raw_seek_end(core->raw);
 }
 
-int32_t jls_rd_open(struct jls_rd_s ** instance, const char * path) {
+static int32_t rd_open(struct jls_rd_s ** instance, const char * path, bool repair) {
     int32_t rc = 0;
     if (!instance) {
         return JLS_ERROR_PARAMETER_INVALID;
@@ -142,7 +142,7 @@ int32_t jls_rd_open(struct jls_rd_s ** instance, const char * path) {
     }
     int64_t pos = jls_raw_chunk_tell(core->raw);
 
-    if (self->core.chunk_cur.hdr.tag != JLS_TAG_END) {
+    if (repair && (self->core.chunk_cur.hdr.tag != JLS_TAG_END)) {
         JLS_LOGW("not properly closed");  // indices & summaries may be incomplete
         GOE(jls_raw_close(core->raw));
         rc = jls_raw_open(&core->raw, path, "a");
@@ -192,8 +192,10 @@ int32_t jls_rd_open(struct jls_rd_s ** instance, const char * path) {
         }
 
         GOE(jls_core_wr_end(core));
-        GOE(jls_raw_close(core->raw));
-        GOE(jls_raw_open(&core->raw, path, "r"));
+        // The repair changed links and appended chunks.  Read the repaired file
+        // from the start, exactly as every later open will.
+        jls_rd_close(self);
+        return rd_open(instance, path, false);
     }
 
     for (uint16_t i = 0; i < JLS_SIGNAL_COUNT; ++i) {
@@ -210,6 +212,10 @@ int32_t jls_rd_open(struct jls_rd_s ** instance, const char * path) {
 exit:
     jls_rd_close(self);
     return rc;
+}
+
+int32_t jls_rd_open(struct jls_rd_s ** instance, const char * path) {
+    return rd_open(instance, path, true);
 }
 
 void jls_rd_close(struct jls_rd_s * self) {
